@@ -68,6 +68,9 @@ class Capture:
         self.D = None  # polar: downmix matrix
         self.excluded = None  # Cartesian: allocentric.get_excluded result
         self.zone_excluded = None  # polar: mask handed to downmix_for_excluded
+        self.stages = {}  # "ss" / "el" / "cl": (input position, output position) of the three position handlers
+        self.calls = []  # (position, gains) of every extent-pan call
+        self.order = []  # the order in which the recorded pieces were entered
 
 
 def render_captured(gc, meta):
@@ -86,19 +89,39 @@ def render_captured(gc, meta):
     orig_dm = zed.downmix_for_excluded
 
     def diverge(*a, **kw):
+        cap.order.append("diverge")
         gains, positions = orig_diverge(*a, **kw)
         cap.d = np.array(gains, dtype=float)
         return gains, positions
 
-    def aep(*a, **kw):
-        r = orig_aep(*a, **kw)
+    def aep(channel_positions, position, *a, **kw):
+        cap.order.append("extent")
+        r = orig_aep(channel_positions, position, *a, **kw)
         cap.g.append(np.array(r, dtype=float))
+        cap.calls.append((np.array(position, dtype=float), np.array(r, dtype=float)))
         return r
 
-    def handle(*a, **kw):
-        r = orig_handle(*a, **kw)
+    def handle(position, *a, **kw):
+        cap.order.append("extent")
+        r = orig_handle(position, *a, **kw)
         cap.g.append(np.array(r, dtype=float))
+        cap.calls.append((np.array(position, dtype=float), np.array(r, dtype=float)))
         return r
+
+    def stage(key, fn):
+        def w(position, *a, **kw):
+            cap.order.append(key)
+            r = fn(position, *a, **kw)
+            cap.stages[key] = (np.array(position, dtype=float), np.array(r, dtype=float))
+            return r
+        return w
+
+    ssh, elh = gc.screen_scale_handler, gc.screen_edge_lock_handler
+    ego, allo = gc.ego_channel_lock_handler, gc.allo_channel_lock_handler
+    ssh.handle = stage("ss", ssh.handle)
+    elh.handle_vector = stage("el", elh.handle_vector)
+    ego.handle = stage("cl", ego.handle)
+    allo.handle = stage("cl", allo.handle)
 
     def getex(*a, **kw):
         r = orig_getex(*a, **kw)
@@ -127,6 +150,7 @@ def render_captured(gc, meta):
         allocentric.get_excluded = orig_getex
         del pep.handle
         del zed.downmix_for_excluded
+        del ssh.handle, elh.handle_vector, ego.handle, allo.handle
     return r, cap
 
 
@@ -138,6 +162,28 @@ def render_line(case, gc, cap):
         head, str(n), encs(cap.d), " , ".join(encs(r) for r in cap.g), z,
         "%s %s %s" % (enc(case["gain"]), enc(case["ogain"]), enc(1.0 if case["mute"] else 0.0)),
         mask(gc.is_lfe), enc(case["diffuse"]),
+    ])
+
+
+def opt(x):
+    return "none" if x is None else enc(x)
+
+
+def full_line(case, gc, cap):
+    n = int(np.sum(~gc.is_lfe))
+    z = mask(cap.excluded) if case["cartesian"] else " , ".join(encs(r) for r in cap.D)
+    div = case["div"]
+    v2 = 1 if (case["version"] is not None and case["version"] >= 2) else 0
+    return " ; ".join([
+        "full C" if case["cartesian"] else "full P", str(n), encs(case["position"]),
+        "none" if case["offset"] is None else encs(case["offset"]),
+        ("none none none %d" % v2) if div is None else "%s %s %s %d" % (enc(div[0]), opt(div[1]), opt(div[2]), v2),
+        "%s %s %s %s" % (enc(case["gain"]), enc(case["ogain"]), enc(1.0 if case["mute"] else 0.0), enc(case["diffuse"])),
+        mask(gc.is_lfe), z,
+        encs(cap.stages["ss"][0]) + " " + encs(cap.stages["ss"][1]),
+        encs(cap.stages["el"][0]) + " " + encs(cap.stages["el"][1]),
+        encs(cap.stages["cl"][0]) + " " + encs(cap.stages["cl"][1]),
+        " , ".join(encs(p) + " " + encs(g) for p, g in cap.calls),
     ])
 
 
@@ -153,11 +199,12 @@ def parse_pair(ans):
 
 
 def work(job):
-    """job = (layout, real, seed, n_random, with_boundary, capture).  Returns a dict of plain data."""
-    layout, real, seed, n_random, with_boundary, capture = job
+    """job = (layout, real, seed, n_random, with_boundary, capture, lattice).  Returns a dict of plain data.
+    lattice: None | "rows" (the special elevation rows) | "full" (whole 5-degree lattice)."""
+    layout, real, seed, n_random, with_boundary, capture, lattice = job
     rng = random.Random("c01/%s/%r" % (layout, seed))
     res = {"layout": layout, "real": real, "lines": [], "expect": [], "cases": [], "hits": [], "counts": {},
-           "capstats": []}
+           "drift": []}
 
     def count(k, n=1):
         res["counts"][k] = res["counts"].get(k, 0) + n
@@ -171,6 +218,11 @@ def work(job):
     cases = [G.gen_case(rng, layout, real, boundary=(i % 4 == 0)) for i in range(n_random)]
     if with_boundary:
         cases += G.boundary_cases(layout, real)
+    if lattice:
+        mode, part, parts = lattice
+        # the same rng seed for every part of a layout: the parts partition one list
+        cases += G.lattice_cases(random.Random("c01-lattice/%s/%r" % (layout, seed)), layout, real,
+                                 full=(mode == "full"))[part::parts]
     for case in cases:
         try:
             meta = G.build_meta(case)
@@ -216,6 +268,12 @@ def work(job):
         if capture:
             res["lines"].append(render_line(case, gc, cap))
             res["expect"].append((case, direct.tolist(), diffuse.tolist()))
+            if all(k in cap.stages for k in ("ss", "el", "cl")) and cap.calls:
+                res["lines"].append(full_line(case, gc, cap))
+                res["expect"].append((case, direct.tolist(), diffuse.tolist()))
+            else:
+                res["drift"].append((case, "handlers entered: " + ">".join(cap.order)))
+            count("pipeline order observed:" + ">".join(k for i, k in enumerate(cap.order) if i == 0 or cap.order[i - 1] != k))
             count("captured diverged positions:%d" % len(cap.g))
             if not case["cartesian"]:
                 ze = cap.zone_excluded
@@ -251,6 +309,62 @@ def allo_tree_line(panner, n, pos):
     return "allo %d %s ; %s" % (n, encs(pos), " , ".join(planes))
 
 
+# --------------------------------------------------------------------------------------
+# T: tables regenerated from the real objects on every run
+
+
+def _q(v):
+    from fractions import Fraction
+
+    f = Fraction(float(v))
+    return "(%d, %d)" % (f.numerator, f.denominator)
+
+
+def table_text():
+    from ear.core import allocentric, bs2051, point_source
+    from ear.core.objectbased.gain_calc import GainCalc  # noqa: F401  (same layout.without_lfe as GainCalc uses)
+    from ear.core.objectbased.zone import ZoneExclusionDownmix
+
+    out = [
+        "/- GENERATED by harness/c01.py on every run from the real objects: for each BS.2051 layout (LFE removed as",
+        "   GainCalc.__init__ does) `ZoneExclusionDownmix(layout).channel_groups`, the speaker tree",
+        "   `AllocentricPanner(allocentric.positions_for_layout(layout)).st` (coordinates as numerator/denominator of the",
+        "   exact float64) and `layout.is_lfe`.  Do not edit. -/",
+        "import Earverif.Model.GainCalc",
+        "namespace Earverif.Gen.C01",
+        "open Earverif.GainCalc",
+        "",
+    ]
+    names = []
+    for name in G.LAYOUTS:
+        full = bs2051.get_layout(name)
+        lay = full.without_lfe
+        zed = ZoneExclusionDownmix(lay)
+        panner = point_source.AllocentricPanner(allocentric.positions_for_layout(lay))
+        ident = "l_" + name.replace("+", "_")
+        names.append(ident)
+        groups = ",\n    ".join(
+            "[" + ", ".join("[" + ", ".join(str(int(j)) for j in grp) + "]" for grp in grps) + "]" for grps in zed.channel_groups
+        )
+        planes = []
+        for pl in panner.st:
+            rows = []
+            for row in pl:
+                rows.append("[" + ", ".join("(%d, %s, %s, %s)" % (idx, _q(c[0]), _q(c[1]), _q(c[2])) for idx, c in row) + "]")
+            planes.append("[" + ",\n     ".join(rows) + "]")
+        out += [
+            "def %s : LayoutTable where" % ident,
+            '  name := "%s"' % name,
+            "  n := %d" % len(lay.channels),
+            "  isLfe := [%s]" % ", ".join("true" if b else "false" for b in full.is_lfe),
+            "  groups := [\n    %s]" % groups,
+            "  tree := [\n    %s]" % ",\n    ".join(planes),
+            "",
+        ]
+    out += ["def layouts : List LayoutTable := [%s]" % ", ".join(names), "", "end Earverif.Gen.C01", ""]
+    return "\n".join(out)
+
+
 class NpProxy:
     """numpy stand-in for allo_extent that records the vectors handed to np.linalg.norm (safe_norm)."""
 
@@ -275,7 +389,7 @@ class NpProxy:
 
 class C01(Spec):
     pid = "C01"
-    lean_targets = ("Earverif.Props.C01", "c01driver")
+    lean_targets = ("Earverif.Gen.C01_Tables", "Earverif.Props.C01", "c01driver")
     props_module = "Earverif.Props.C01"
     theorems = tuple(
         "Earverif.GainCalc." + t
@@ -285,6 +399,12 @@ class C01(Spec):
             "diverge_gains_nonneg", "split_power", "downmix_rows_sum_one", "downmix_nonneg", "depthCombine_unit",
             "pvSpread_power", "normalise_unit", "safeNorm_unit", "balancePan_unit", "allo_unit_power",
             "render_power_allocentric", "render_power_polar_extent", "C01_partial",
+            # round 2: regenerated tables, position pipeline, allo_extent skeleton
+            "tables_ok", "tables_nonempty", "downmix_total", "downmix_layouts", "allo_unit_power_layouts",
+            "alloHandle_total", "allo_total_layouts", "render_power_allocentric_layouts", "render_power_polar_layouts",
+            "renderFull_allocentric_layouts", "divergePositions_length", "diverge_cart_in_cube", "interp_bounds",
+            "amountSpread_range", "extentMod_range", "polarHandle_isPolarRow", "polarHandle_contract",
+            "renderFull_power", "renderFull_polar", "alloExtent_nonneg", "alloExtent_unit", "alloExtent_unit_of_size",
         )
     )
     trusted_base = (
@@ -312,8 +432,18 @@ class C01(Spec):
         "reference screens, screenEdgeLock, positionOffset, diffuse, block gain, object gain, mute; random inside "
         "the ADM value ranges with boundary values over-weighted, plus a deterministic boundary grid) x the ten "
         "BS.2051 layouts (thorough: plus generated left/right symmetric real-position layouts inside the permitted "
-        "ranges); a case is one (block, layout); non-trivial = non-zero output power; distinct by the case dict"
+        "ranges), plus a lattice stream: azimuth/elevation on the 5-degree grid of the spreading panner's virtual sources "
+        "(quick: the rows |el| in {85,80,45,40,30,0} on three layouts rotated by seed; thorough: the whole grid on all "
+        "ten) and on 1-degree steps, Cartesian positions on multiples of 0.25 / 0.1, each with a fixed set of extents "
+        "(0/5/20/90/180/270/360, wide-flat and tall shapes, depth 0/0.5); a case is one (block, layout); non-trivial = non-zero output power; distinct by the case dict"
     )
+
+    # ---- tables
+    def extract(self, ctx):
+        from . import common
+
+        changed = common.write_if_changed(os.path.join(common.GEN, "C01_Tables.lean"), table_text())
+        ctx.count("tables: Gen/C01_Tables.lean %s" % ("rewritten" if changed else "unchanged"))
 
     # ---- plumbing
     def _jobs(self, ctx, n_per_layout, with_boundary, capture, chunks=1, real_layouts=0):
@@ -321,15 +451,23 @@ class C01(Spec):
         for name in G.LAYOUTS:
             for c in range(chunks):
                 jobs.append((name, None, (ctx.seed, ctx.tier, capture, c), n_per_layout // chunks,
-                             with_boundary and c == 0, capture))
+                             with_boundary and c == 0, capture, None))
             for r in range(real_layouts):
                 real = G.gen_real_layout(ctx.rng, name)
                 if real is None:
                     ctx.count("real-layout generator: no freedom (%s)" % name)
                     continue
                 jobs.append((name, real, (ctx.seed, ctx.tier, capture, "real", r), max(40, n_per_layout // (4 * chunks)),
-                             False, capture))
+                             False, capture, None))
         return jobs
+
+    def _lattice_jobs(self, ctx, layouts, mode, capture, parts):
+        """lattice stream (5-degree / 1-degree polar grid, 0.25 / 0.1 Cartesian grid) split into `parts` jobs per layout"""
+        return [(name, None, (ctx.seed, ctx.tier, "lattice", mode), 0, False, capture, (mode, part, parts))
+                for name in layouts for part in range(parts)]
+
+    def _rotating_layouts(self, ctx, k=3):
+        return [G.LAYOUTS[(3 * ctx.seed + i) % len(G.LAYOUTS)] for i in range(k)]
 
     def _absorb(self, ctx, res, driver, stage):
         for k, n in res["counts"].items():
@@ -338,12 +476,17 @@ class C01(Spec):
             ctx.case((stage, canon), nontrivial, sample=sample)
         for what, inp, detail, tags in res["hits"]:
             ctx.hit(what, inp, detail, tags)
+        for case, detail in res.get("drift", []):
+            ctx.disagree("GainCalc.render does not enter the position handlers the model's pipeline has", case,
+                         "positionOffset>coord_trans>ss>el>cl>diverge>extent", detail)
         if res["lines"]:
             outs = driver.run(res["lines"])
             for line, ans, (case, direct, diffuse) in zip(res["lines"], outs, res["expect"]):
                 m = parse_pair(ans)
                 if m is None or not close_vec(m[0], direct) or not close_vec(m[1], diffuse):
-                    ctx.disagree("GainCalc.render vs Earverif.GainCalc.render on the captured intermediates",
+                    ctx.disagree("GainCalc.render vs Earverif.GainCalc.%s" % (
+                                     "renderFull (position pipeline with the recorded handler calls as oracles)"
+                                     if line.startswith("full") else "render on the captured intermediates"),
                                  case, ans if m is None else {"direct": f17(m[0]), "diffuse": f17(m[1])},
                                  {"direct": f17(direct), "diffuse": f17(diffuse)})
                 else:
@@ -364,12 +507,14 @@ class C01(Spec):
         nproc = min(16, os.cpu_count() or 1)
         if ctx.quick:
             jobs = self._jobs(ctx, 200, False, True)
+            jobs += self._lattice_jobs(ctx, self._rotating_layouts(ctx), "rows", True, 5)
         else:
             jobs = self._jobs(ctx, 1200, True, True, chunks=2, real_layouts=3)
+            jobs += self._lattice_jobs(ctx, G.LAYOUTS, "rows", True, 4)
         self._run_jobs(ctx, jobs, driver, "render", nproc)
         self._sub_models(ctx, driver)
 
-    def _cmp(self, ctx, driver, what, items):
+    def _cmp(self, ctx, driver, what, items, tol=TOL):
         """items: list of (line, expected list(s) of floats or 'assert', input description)."""
         if not items:
             return
@@ -386,13 +531,13 @@ class C01(Spec):
                 if isinstance(exp, tuple):
                     parts = body.split("|")
                     got = [decs(p) for p in parts]
-                    ok = len(parts) == len(exp) and all(close_vec(g, e) for g, e in zip(got, exp))
+                    ok = len(parts) == len(exp) and all(close_vec(g, e, tol) for g, e in zip(got, exp))
                 elif exp and isinstance(exp[0], list):
                     got = [decs(p) for p in body.split(",")]
-                    ok = len(got) == len(exp) and all(close_vec(g, e) for g, e in zip(got, exp))
+                    ok = len(got) == len(exp) and all(close_vec(g, e, tol) for g, e in zip(got, exp))
                 else:
                     got = decs(body)
-                    ok = close_vec(got, exp)
+                    ok = close_vec(got, exp, tol)
             if ok:
                 ctx.validated()
             else:
@@ -422,6 +567,30 @@ class C01(Spec):
         g, _p = gcmod.diverge(np.array([0.0, 1.0, 0.0]), None, False, None)
         items.append(("div none", [float(x) for x in g], {"value": None}))
         self._cmp(ctx, driver, "diverge gains", items)
+        # diverge positions (polar: azimuthRange incl. the version-dependent default; Cartesian: positionRange, clipping)
+        items = []
+        from ear.core.geom import cart as _cart
+
+        for _ in range(60 if quick else 600):
+            cartesian = rng.random() < 0.5
+            if cartesian:
+                pos = np.array([rng.choice([-1.0, 0.0, 1.0, rng.uniform(-1, 1)]) for _ in range(3)])
+            else:
+                pos = _cart(rng.choice([0.0, 30.0, -110.0, 180.0, rng.uniform(-180, 180)]),
+                            rng.choice([0.0, 30.0, -90.0, 90.0, rng.uniform(-90, 90)]), rng.choice([1.0, 0.5, 0.0, rng.random()]))
+            v = rng.choice([None, 0.0, 0.5, 1.0, rng.random()])
+            ar = rng.choice([None, 0.0, 30.0, 45.0, 180.0, rng.uniform(0, 180)])
+            pr = rng.choice([None, 0.0, 0.5, 1.0, rng.random()])
+            ver = rng.choice([None, 1, 2])
+            with warnings.catch_warnings():
+                warnings.simplefilter("ignore")
+                _g, ps = gcmod.diverge(pos, None if v is None else ObjectDivergence(v, azimuthRange=ar, positionRange=pr),
+                                       cartesian, None if ver is None else BS2076Version(ver))
+            items.append(("divpos %d %s %s %s %s %d" % (cartesian, encs(pos), opt(v), opt(ar), opt(pr), 1 if ver == 2 else 0),
+                          [list(map(float, q)) for q in np.asarray(ps)],
+                          {"cartesian": cartesian, "position": pos.tolist(), "value": v, "azimuthRange": ar,
+                           "positionRange": pr, "version": ver}))
+        self._cmp(ctx, driver, "diverge positions", items, tol=1e-9)
         # direct_diffuse_split, get_object_gain
         items = []
         for _ in range(40 if quick else 400):
@@ -458,16 +627,6 @@ class C01(Spec):
                               {"layout": name, "excluded": list(m)}))
                 ctx.count("downmix masks:%s" % name)
         self._cmp(ctx, driver, "downmix_for_excluded", items)
-        # hypothesis of downmix_rows_sum_one on the tables the code builds: groups duplicate-free, cover all channels
-        bad = []
-        for name in G.LAYOUTS:
-            zed = ZoneExclusionDownmix(bs2051.get_layout(name).without_lfe)
-            for i, grps in enumerate(zed.channel_groups):
-                flat = [int(j) for grp in grps for j in grp]
-                if any(len(set(map(int, grp))) != len(grp) for grp in grps) or sorted(flat) != list(range(zed.num_channels)):
-                    bad.append((name, i))
-        ctx.obligation("hypothesis of downmix_rows_sum_one holds for ZoneExclusionDownmix.channel_groups of the ten layouts "
-                       "(groups duplicate-free and partition the channels)", not bad, repr(bad[:5]))
         # AllocentricPanner.handle: the layouts' grids, sub-grids (as after exclusion) and random grids
         items = []
         grids = []
@@ -503,8 +662,9 @@ class C01(Spec):
                               {"grid": name, "positions": pos.tolist(), "position": p}))
             ctx.count("allocentric grids:%s" % ("layout" if name in G.LAYOUTS else name.split(":")[-1]))
         self._cmp(ctx, driver, "AllocentricPanner.handle", items)
-        ctx.obligation("hypothesis TreeWF of allo_unit_power holds for AllocentricPanner._speaker_tree of the ten layouts' "
-                       "grids, their sampled sub-grids and the random grids", not bad, repr(bad[:2]))
+        # (for the ten full grids TreeWF is the Lean theorem tables_ok; sub-grids after exclusion are only checked here)
+        ctx.obligation("hypothesis TreeWF of allo_unit_power holds for AllocentricPanner._speaker_tree of the sampled "
+                       "sub-grids (as after zone exclusion) and random grids", not bad, repr(bad[:2]))
         # polar extent: calc_pv_spread skeleton, normalisation, depth RMS  (on three layouts; the code is layout-independent)
         items_pv, items_norm, items_depth = [], [], []
         for name in (["4+5+0"] if quick else ["0+5+0", "4+5+0", "9+10+3", "0+2+0"]):
@@ -572,6 +732,44 @@ class C01(Spec):
         self._cmp(ctx, driver, "calc_pv_spread skeleton", items_pv)
         self._cmp(ctx, driver, "SpreadingPanner normalisation", items_norm)
         self._cmp(ctx, driver, "PolarExtentHandler depth RMS", items_depth)
+        # extent_mod and the distance/depth logic of PolarExtentHandler.handle
+        from ear.core.objectbased.gain_calc import PolarExtentHandler
+
+        items = []
+        for _ in range(80 if quick else 800):
+            e = rng.choice([0.0, 5.0, 10.0, 90.0, 360.0, rng.uniform(0, 360)])
+            d = rng.choice([0.0, 1.0, 0.5, 2.0, 1e-9, rng.uniform(0, 2)])
+            items.append(("extmod %s %s" % (enc(e), enc(d)), [float(PolarExtentHandler.extent_mod(e, d))], {"extent": e, "distance": d}))
+        self._cmp(ctx, driver, "extent_mod", items, tol=1e-9)
+        items = []
+        gc, _lay = G.gain_calc("0+5+0")
+        peh = gc.polar_extent_panner
+        pep = peh.polar_extent_panner
+        calls = []
+        orig_cps = pep.calc_pv_spread
+
+        def cps2(position, width, height):
+            r = orig_cps(position, width, height)
+            calls.append((float(width), float(height), np.array(r, dtype=float)))
+            return r
+
+        pep.calc_pv_spread = cps2
+        try:
+            for _ in range(40 if quick else 300):
+                dist = rng.choice([1.0, 0.5, 0.0, 0.1, rng.random()])
+                position = _cart(rng.uniform(-180, 180), rng.uniform(-90, 90), dist)
+                w, h = rng.choice([0.0, 5.0, 20.0, 360.0, rng.uniform(0, 360)]), rng.choice([0.0, 10.0, 45.0, rng.uniform(0, 360)])
+                depth = rng.choice([0.0, 0.0, 1.0, 0.5, 0.1, 2 * dist, 3 * dist])
+                del calls[:]
+                r = peh.handle(position, w, h, depth)
+                ctx.count("PolarExtentHandler.handle end distances:%d" % len(calls))
+                items.append(("phandle %s %s %s %s ; %s" % (encs(position), enc(w), enc(h), enc(depth),
+                                                           " ; ".join(encs(c[2]) for c in calls)),
+                              ([x for c in calls for x in c[:2]], list(map(float, r))),
+                              {"position": list(position), "width": w, "height": h, "depth": depth}))
+        finally:
+            del pep.calc_pv_spread
+        self._cmp(ctx, driver, "PolarExtentHandler.handle distance/depth logic", items, tol=1e-9)
         # allo_extent.get_gains: the last safe_norm
         items = []
         proxy = NpProxy()
@@ -594,6 +792,57 @@ class C01(Spec):
         finally:
             allo_extent.np = orig_np
         self._cmp(ctx, driver, "allo_extent final safe_norm", items)
+        # allo_extent.get_gains skeleton: everything after the per-axis weights.  The wrappers record what _p, _mu,
+        # _s_eff, _calc_w, _calc_g_point_separated and _calc_f returned; the six boundary terms and g_point are
+        # recomputed here from those with the formulas of get_gains.
+        items = []
+        rec = {}
+        names = ["_p", "_mu", "_s_eff", "_calc_w", "_calc_g_point_separated", "_calc_f"]
+        orig = {nm: getattr(allo_extent, nm) for nm in names}
+
+        def mk(nm):
+            def w(*a, **kw):
+                r = orig[nm](*a, **kw)
+                rec.setdefault(nm, []).append(r)
+                return r
+            return w
+
+        for nm in names:
+            setattr(allo_extent, nm, mk(nm))
+        try:
+            for name in (["0+5+0", "4+5+0", "9+10+3"] if quick else G.LAYOUTS):
+                pos = allocentric.positions_for_layout(bs2051.get_layout(name).without_lfe)
+                for _ in range(8 if quick else 40):
+                    keep = [i for i in range(len(pos)) if rng.random() < 0.8] if rng.random() < 0.3 else list(range(len(pos)))
+                    cp = pos[keep or [0]]
+                    p_ = np.array([rng.choice([-1.0, 0.0, 1.0, rng.uniform(-1, 1)]) for _ in range(3)])
+                    sz = [rng.choice([0.0, 0.01, 0.05, 0.2, 1.0, rng.random()]) for _ in range(3)]
+                    if rng.random() < 0.4:  # small sizes: s_eff < s_fade, point and size gains are cross-faded
+                        sz = [rng.choice([0.0, 0.01, 0.03, 0.05, 0.08]) for _ in range(3)]
+                    if not any(sz):
+                        sz[1] = 0.02
+                    rec.clear()
+                    with np.errstate(all="ignore"):
+                        r = allo_extent.get_gains(cp, p_, *sz)
+                    pw, mu, se = rec["_p"][0], rec["_mu"][0], rec["_s_eff"][0]
+                    wx, wy, wz = rec["_calc_w"][0]
+                    gx, gy, gz = rec["_calc_g_point_separated"][0]
+                    fx, fy, fz = rec["_calc_f"]
+                    gpt = np.array(rec["_calc_g_point_separated"][1]).prod(axis=0).flatten()
+                    with np.errstate(all="ignore"):
+                        b = [np.power(gx[:, 0] * wx[0], pw), np.power(gx[:, -1] * wx[-1], pw),
+                             np.power(gy[:, 0] * wy[0], pw), np.power(gy[:, -1] * wy[-1], pw),
+                             np.power(gz[:, -1] * wz[-1], pw), np.power(gz[:, 0] * wz[0], pw)]
+                    chs = " , ".join(encs([fx[j], fy[j], fz[j]] + [bb[j] for bb in b] + [gpt[j]]) for j in range(len(cp)))
+                    items.append(("alloext %s %s %s ; %s" % (enc(pw), enc(mu), enc(se), chs), list(map(float, r)),
+                                  {"layout": name, "channels": keep, "position": p_.tolist(), "size": sz}))
+                    ctx.count("allo_extent fade:%s" % ("point+size" if se < 0.2 else "size only"))
+                    ctx.count("allo_extent weights observed >= 0:%s" % bool(
+                        min(np.min(fx), np.min(fy), np.min(fz), min(np.min(bb) for bb in b), np.min(gpt), mu, se) >= 0))
+        finally:
+            for nm in names:
+                setattr(allo_extent, nm, orig[nm])
+        self._cmp(ctx, driver, "allo_extent.get_gains skeleton", items)
         # safe_norm threshold branch, directly on the model's two sides (vectors shorter/longer than 1e-16)
         items = []
         for v in ([0.0, 0.0, 0.0], [1e-17, 0.0], [3e-16, 4e-16], [1e-16, 0.0], [3.0, 4.0]):
@@ -611,8 +860,10 @@ class C01(Spec):
             jobs = self._jobs(ctx, 80, False, False)
         elif ctx.quick:
             jobs = self._jobs(ctx, 200, True, False, chunks=2)
+            jobs += self._lattice_jobs(ctx, [n for n in G.LAYOUTS if n not in self._rotating_layouts(ctx)], "rows", False, 2)
         else:
             jobs = self._jobs(ctx, 3600, True, False, chunks=4, real_layouts=12)
+            jobs += self._lattice_jobs(ctx, G.LAYOUTS, "full", False, 8)
         self._run_jobs(ctx, jobs, driver, "search", nproc)
 
 
@@ -629,9 +880,23 @@ REGISTRY = dict(
     "for the whole allocentric point-source panner on every well-formed grid and position (allo_unit_power; "
     "render_power_allocentric = Cartesian point objects with no panner hypothesis left); the polar extent skeleton "
     "(pvSpread_power, depthCombine_unit, normalise_unit; render_power_polar_extent) and allo_extent's final "
-    "safe_norm (safeNorm_unit) given a non-zero pre-normalisation vector. The model is tied to the code on every "
+    "safe_norm (safeNorm_unit) given a non-zero pre-normalisation vector. Round 2: per-layout tables (zone priority "
+    "groups, allocentric speaker tree with exact rational coordinates, is_lfe) are regenerated from the real objects "
+    "on every run (Gen/C01_Tables.lean) and checked by decide +kernel (tables_ok, tables_nonempty), which instantiates "
+    "inside Lean, for the ten BS.2051 layouts: downmix_layouts (H2 and totality of downmix_for_excluded for every "
+    "exclusion mask), allo_total_layouts (the allocentric panner never raises and has unit power at every position), "
+    "render_power_allocentric_layouts / renderFull_allocentric_layouts (Cartesian point objects without zone "
+    "exclusion: full invariant, no panner hypothesis), render_power_polar_layouts. The position pipeline is inside "
+    "the model (renderFull: positionOffset, coord_trans, screen scale, edge lock, channel lock, diverge positions, "
+    "extent pan; the three handlers and the panner are arbitrary functions): renderFull_power, renderFull_polar, "
+    "divergePositions_length (the one-vector-per-diverged-position shape is proved), diverge_cart_in_cube; the polar "
+    "handler's distance/depth logic with extent_mod (polarHandle_isPolarRow, amountSpread_range, extentMod_range); the "
+    "allo_extent.get_gains skeleton after the per-axis weights (alloExtent_nonneg, alloExtent_unit, "
+    "alloExtent_unit_of_size: unit power for unit point gains and a non-zero size vector). The model is tied to the code on every "
     "run by capturing diverge / extent panner / zone downmix results inside the real GainCalc.render and replaying "
-    "them through the Lean model (1e-12 absolute), plus direct sub-model comparisons. NOT proved, only searched on "
+    "them through the Lean model (1e-12 absolute), by replaying the whole pipeline with the recorded handler calls as "
+    "oracles (renderFull; a recorded call that is not where the model's pipeline puts it is a disagreement), plus "
+    "direct sub-model comparisons (diverge positions, extent_mod, handle distance logic, get_gains skeleton, ...). NOT proved, only searched on "
     "the real code (generated blocks x ten layouts; thorough: symmetric real-position layouts): that the egocentric "
     "point-source panner never returns no result and has unit power ([1/2,1] on 0+2+0), that spread weights are not "
     "all zero, that allo_extent's vector exceeds 1e-16, and finiteness/non-negativity under float arithmetic.",
